@@ -228,7 +228,9 @@ def judgeServer (ct ot : List String) : Option Verdict := do
   let keyOf (c : Nat) : Bytes := if cfg.isEmpty then [0xff, 0xfe, UInt8.ofNat c] ++ List.replicate 70 0xee else cfg
   let obsSteps := ((kv ot "steps").getD "").splitOn ","
   -- walk the steps
+  -- started / dead: connections that have read their first hello / whose handshake has failed
   let rec go (steps : List Step) (obs : List String) (issued : List Issued) (done : Bool)
+      (started dead : List Nat)
       (outs : List String) (fail : Option (String × String)) : Option (List String × Option (String × String) × Bool) :=
     match steps with
     | [] => some (outs.reverse, fail, done)
@@ -246,13 +248,22 @@ def judgeServer (ct ot : List String) : Option Verdict := do
       let o := obs.headD ""
       let r? := (parseReaction o).map fun r => { r with hellos := st.pack }
       let binding : Spec.Cookie.Binding := ⟨keyOf st.conn, peer, toSpec h⟩
-      if !st.own then
+      if st.own && !dead.contains st.conn && !started.contains st.conn
+          && !versionOk Facts.dtlcp.VersionTLCP h.vers then
+        -- first hello of the connection, version selection fails: protocol_version alert, connection over
+        let m := s!"1/-/{rh + 2}/1/{req}/0"
+        let f := match fail, r? with
+          | some x, _ => some x
+          | none, some r => if Spec.Cookie.versionAcceptable h.vers then Spec.Cookie.judgePreCookie r else Spec.Cookie.judgeRefusal r
+          | none, none => some ("shape", "unparseable reaction")
+        go rest obs.tail issued false started (st.conn :: dead) (m :: outs) f
+      else if !st.own || dead.contains st.conn then
         let m := s!"0/-/-/0/{req}/0"
         let f := match fail, r? with
           | some x, _ => some x
           | none, some r => Spec.Cookie.judgeIgnored r
           | none, none => some ("shape", "unparseable reaction")
-        go rest obs.tail issued false (m :: outs) f
+        go rest obs.tail issued false started dead (m :: outs) f
       else
         let input := cookieInput peer (marshal h)
         let valid := match src with
@@ -275,7 +286,7 @@ def judgeServer (ct ot : List String) : Option Verdict := do
               else match r? with
                 | some r => Spec.Cookie.judgePreCookie r
                 | none => some ("shape", "unparseable reaction")
-          go rest obs.tail issued true ("acc" :: outs) f
+          go rest obs.tail issued true (st.conn :: started) dead ("acc" :: outs) f
         | .hvr n =>
           -- the loop runs once per buffered hello: `pack` HelloVerifyRequests, one datagram each
           let answers := answersPerDatagram Facts.dtlcp.cookieLoopDropsLeftover st.pack
@@ -292,8 +303,8 @@ def judgeServer (ct ot : List String) : Option Verdict := do
               else match r? with
                 | some r => Spec.Cookie.judgePreCookie r
                 | none => some ("shape", "unparseable reaction")
-          go rest obs.tail (issued ++ List.replicate (answersPerDatagram Facts.dtlcp.cookieLoopDropsLeftover st.pack) ⟨keyOf st.conn, input, binding⟩) false (m :: outs) f
-  let (outs, fail, done) ← go steps obsSteps [] false [] none
+          go rest obs.tail (issued ++ List.replicate (answersPerDatagram Facts.dtlcp.cookieLoopDropsLeftover st.pack) ⟨keyOf st.conn, input, binding⟩) false (st.conn :: started) dead (m :: outs) f
+  let (outs, fail, done) ← go steps obsSteps [] false [] [] [] none
   -- the flight after acceptance is not predicted; it must show that the instrumentation sees
   -- certificates and private-key operations when they do happen
   let flight := (kv ot "flight").getD "-"
